@@ -491,6 +491,14 @@ func (m *Machine) index(idx *Term, n int, it types.Type) int {
 		return int(i)
 	}
 	inRange := tCmp("bvult", idx, mkConst(idx.W, uint64(n)))
+	if idx.W < 64 && uint64(n) >= uint64(1)<<uint(idx.W) {
+		// the length does not fit the index type (a [256]T table indexed by a byte): every non-negative
+		// value of the index is in range
+		inRange = tTrue
+		if signed {
+			inRange = tCmp("bvsge", idx, mkConst(idx.W, 0))
+		}
+	}
 	if !m.branch(inRange) {
 		m.targetPanic(fmt.Sprintf("runtime error: index out of range [symbolic] with length %d", n))
 	}
